@@ -129,7 +129,7 @@ def meta_conf(case, rid, registry):
     return ["colvar {", "  name v0", "  lowerBoundary 0", "  upperBoundary %d" % case["nbins"], "  width 1",
             "  distanceZ {", "    main { atomNumbers 1 }", "    ref { dummyAtom (0,0,0) }", "    axis (0,0,1)", "  }", "}",
             "metadynamics {", "  name m", "  colvars v0", "  hillWeight 1", "  gaussianSigmas %r" % SIGMA,
-            "  newHillFrequency %d" % case["hillfreq"], "  useGrids on", "  writeFreeEnergyFile off",
+            "  newHillFrequency %d" % case["hillfreq"]] + (["  useGrids on", "  writeFreeEnergyFile off"] if case.get("grids", True) else ["  useGrids off"]) + [
             "  multipleReplicas on", "  replicaID %s" % rid, "  replicasRegistry %s" % registry,
             "  replicaUpdateFrequency %d" % case["upfreq"], "}"]
 
@@ -163,6 +163,8 @@ def parse_meta(lines):
             res["step"] = int(t[1])
         elif t[0] == "ERRTEXT":
             res["errtext"] = s[8:]
+        elif t[0] == "META" and len(t) > 1 and t[1] == "none":
+            res["own"] = None          # the bias does not exist (its configuration was rejected)
         elif t[0] in ("META", "MIRROR"):
             d = {}
             i = 1
@@ -170,7 +172,7 @@ def parse_meta(lines):
                 k, v = t[i].split("=", 1)
                 d[k] = v
                 i += 1
-            assert t[i] == "hills"
+            assert i < len(t) and t[i] == "hills", s
             i += 1
             hl = []
             while i < len(t) and "=" not in t[i]:
@@ -300,8 +302,7 @@ def run_view(exe, case, scratch, timeout=30.0):
       ["rs", bin]        one step of the reader R            ["rr"]             restart of R
       ["ph", k]          R's view of P's current hills file becomes its first k bytes (k None = all on disk)
       ["pl", k]          R's view of P's list file becomes its first k bytes (None = complete)
-      ["pt", k]          R's view of P's state file becomes its first k bytes (None = complete; not generated: state files are
-                         written to a temporary name and renamed)
+      ["pt", k]          R's view of P's state file becomes its first k bytes (None = complete)
       ["ps", bin, "split"]  a step of P whose state-file rewrite (if it does one) reaches R in two stages: R sees the new
                          state file at once but keeps seeing its old view of the hills file until ["pb"] (or P's next event)
       ["pg", k]          P's record in R's registry file becomes its first k bytes (None = complete); with case["late_register"]
@@ -327,31 +328,37 @@ def run_view(exe, case, scratch, timeout=30.0):
     def p_files():
         return (os.path.join(pd, "out%d.colvars.m.w1.state" % pgen), os.path.join(pd, "out%d.colvars.m.w1.hills" % pgen))
 
-    view = {"hills_bytes": 0, "state_trunc": None, "p_state_sig": None, "registered": False,
+    view = {"hills_bytes": 0, "state_partial": False, "p_state_sig": None, "registered": False,
             "list_ok": True, "reg_ok": not case.get("late_register", False), "reg_own": ""}
     w1line = "w1 %s\n" % vlist
 
     def finish_rewrite():
+        """second half of a state-file rewrite delivered in two stages: the new state file becomes visible"""
         if view.get("mid"):
             view["mid"] = False
-            view["hills_bytes"] = 0
-            atomic_write(vhills, b"")
+            sp, hp = p_files()
+            sb = read_bytes(sp)
+            view["p_state_sig"] = (pgen, state_step(sp), len(sb) if sb is not None else None)
+            view["state_partial"] = False
+            if sb is not None:
+                atomic_write(vstate, sb)
 
     def sync_view(split=False):
-        """follow P: a new state file (or hills file generation) is seen at once; the hills view restarts
-        (with split: only when finish_rewrite() is called)"""
+        """follow P: a new state file (or hills file generation) is seen at once and the hills view restarts;
+        with split the reader first sees only the restarted (empty) hills file next to the previous state file
+        (the order of write_state_to_replicas since repair 8), the new state file at finish_rewrite()"""
         sp, hp = p_files()
         sb = read_bytes(sp)
         sig = (pgen, state_step(sp), len(sb) if sb is not None else None)
         if sb is not None and sig != view["p_state_sig"]:
-            view["p_state_sig"] = sig
-            view["state_trunc"] = None
-            atomic_write(vstate, sb)
+            view["hills_bytes"] = 0
+            atomic_write(vhills, b"")
             if split and view["registered"]:
                 view["mid"] = True
             else:
-                view["hills_bytes"] = 0
-                atomic_write(vhills, b"")
+                view["p_state_sig"] = sig
+                view["state_partial"] = False
+                atomic_write(vstate, sb)
             if not view["registered"]:
                 atomic_write(vlist, full_list)
                 view["reg_own"] = open(regr).read() if os.path.exists(regr) else ""
@@ -396,9 +403,11 @@ def run_view(exe, case, scratch, timeout=30.0):
                     atomic_write(regr, (view["reg_own"] + (w1line if ev[1] is None else w1line[:ev[1]])).encode())
                     view["reg_ok"] = ev[1] is None or ev[1] >= len(w1line)
             elif ev[0] == "pt":
-                sb = read_bytes(p_files()[0]) or b""
-                atomic_write(vstate, sb if ev[1] is None else sb[:ev[1]])
-                view["state_trunc"] = ev[1]
+                if not view.get("mid") and view["p_state_sig"] is not None:
+                    sb = read_bytes(p_files()[0]) or b""
+                    cut = sb if ev[1] is None else sb[:ev[1]]
+                    atomic_write(vstate, cut)
+                    view["state_partial"] = cut.rstrip() != sb.rstrip()
             elif ev[0] == "rs":
                 r = R.do(["pos 1 0 0 %s" % float(ev[1] + 0.5).hex(), "step", "errtext", "dumpmeta m"], timeout)
                 rec["r"] = parse_meta(r)
@@ -410,7 +419,9 @@ def run_view(exe, case, scratch, timeout=30.0):
             rec["reclen"] = record_length(hb) if hb and b"}\n" in hb else None
             rec["view_hills_bytes"] = view["hills_bytes"]
             rec["mid"] = bool(view.get("mid"))
-            rec["files_ok"] = view["list_ok"] and view["reg_ok"] and view["state_trunc"] is None
+            rec["state_partial"] = view["state_partial"]
+            rec["view_state_step"] = None if view["state_partial"] else state_step(vstate)
+            rec["files_ok"] = view["list_ok"] and view["reg_ok"]
             rec["p_hills_bytes"] = len(hb) if hb is not None else None
             rec["p_state_step"] = state_step(p_files()[0])
             rec["pgen"] = pgen
@@ -453,7 +464,9 @@ def run_czar(exe, case, scratch, timeout=30.0):
         dirs.append(d)
     res = []
     with W.Team(exe, n, dirs, timeout_ms=4000) as T:
-        setup = ["natoms 1", "samestep 1", "temperature 300", "dt 1", "new", "config EOF"] + czar_conf(case) + \
+        # the total force on an extended-Lagrangian coordinate is the one of the previous step: with same-step forces the
+        # ABF and CZAR gradient sums stay zero
+        setup = ["natoms 1", "samestep 0", "temperature 300", "dt 1", "new", "config EOF"] + czar_conf(case) + \
                 ["EOF", "outprefix out", "show cv 0 energy 0 bias 0 atomf 0"]
         for r in T.all_do(setup, timeout):
             if not any(x.startswith("CONFIG err=ok") for x in r):
@@ -476,7 +489,7 @@ def opes_conf(case):
     return ["colvar {", "  name v0", "  distanceZ {", "    main { atomNumbers 1 }", "    ref { dummyAtom (0,0,0) }",
             "    axis (0,0,1)", "  }", "}",
             "opes_metad {", "  name o", "  colvars v0", "  newHillFrequency %d" % case["pace"], "  barrier 10",
-            "  gaussianSigma 0.125", "  compressionThreshold 0", "  multipleReplicas on", "  sharedFreq %d" % case["pace"], "}"]
+            "  gaussianSigma 0.125", "  fixedGaussianSigma on", "  compressionThreshold 0", "  multipleReplicas on", "  sharedFreq %d" % case["pace"], "}"]
 
 
 def parse_opes(lines):
@@ -493,6 +506,10 @@ def parse_opes(lines):
             while i < len(t) and "=" not in t[i]:
                 h, c, sg = t[i].split(":")
                 d["kernels"].append((h, c, sg))
+                i += 1
+            while i < len(t):
+                k, v = t[i].split("=")
+                d[k] = v
                 i += 1
             return d
     return None
